@@ -34,6 +34,11 @@ pub struct TcpScript {
     pub on_write: Option<Box<dyn FnMut(usize) + Send>>,
     pub read_timeouts_set: Vec<Option<Duration>>,
     pub zero_timeout_set: bool,
+    /// Virtual time every read that delivers data takes before it returns
+    /// (slow client). A read whose latency reaches the timeout in force
+    /// returns EWOULDBLOCK after that timeout instead, like a socket with
+    /// SO_RCVTIMEO.
+    pub read_latency: Option<Duration>,
     /// Order of the calls made on the stream: 'T' set_read_timeout (index into
     /// `read_timeouts_set`), 'R' read, 'W' write.
     pub call_log: Vec<(char, usize)>,
@@ -74,6 +79,15 @@ impl Read for TcpStream {
         s.read_calls += 1;
         if buf.is_empty() {
             return Ok(0);
+        }
+        if let (Some(lat), Some(ReadEv::Data(_))) = (s.read_latency, s.reads.front()) {
+            match s.read_timeouts_set.last().copied().flatten() {
+                Some(t) if lat >= t => {
+                    crate::advance_ns(t.as_nanos() as u64);
+                    return Err(io::Error::new(io::ErrorKind::WouldBlock, "scripted slow client: read timed out"));
+                }
+                _ => crate::advance_ns(lat.as_nanos() as u64),
+            }
         }
         match s.reads.pop_front() {
             None | Some(ReadEv::Eof) => Ok(0),
